@@ -830,3 +830,52 @@ impl<'g, G: AffineRepr, T: BorrowMut<Transcript>> Prover<'g, G, T> {
         Ok((proof, self.transcript))
     }
 }
+
+/// Verification hooks (additive; compiled only with the `verif-hooks` feature).
+///
+/// They let an external harness push a gate-violating witness through the
+/// unmodified proving code: the constraint-system API computes every gate
+/// output itself, so without this no caller can violate a multiplication gate.
+#[cfg(feature = "verif-hooks")]
+impl<'g, G: AffineRepr, T: BorrowMut<Transcript>> Prover<'g, G, T> {
+    /// Overwrites the (left, right, output) assignment of gate `i`.
+    pub fn verif_override_gate(
+        &mut self,
+        i: usize,
+        l: G::ScalarField,
+        r: G::ScalarField,
+        o: G::ScalarField,
+    ) {
+        self.secrets.a_L[i] = l;
+        self.secrets.a_R[i] = r;
+        self.secrets.a_O[i] = o;
+    }
+
+    /// Reads the (left, right, output) assignment of gate `i`.
+    pub fn verif_gate(&self, i: usize) -> (G::ScalarField, G::ScalarField, G::ScalarField) {
+        (
+            self.secrets.a_L[i],
+            self.secrets.a_R[i],
+            self.secrets.a_O[i],
+        )
+    }
+}
+
+#[cfg(feature = "verif-hooks")]
+impl<'g, G: AffineRepr, T: BorrowMut<Transcript>> RandomizingProver<'g, G, T> {
+    /// See [`Prover::verif_override_gate`].
+    pub fn verif_override_gate(
+        &mut self,
+        i: usize,
+        l: G::ScalarField,
+        r: G::ScalarField,
+        o: G::ScalarField,
+    ) {
+        self.prover.verif_override_gate(i, l, r, o)
+    }
+
+    /// See [`Prover::verif_gate`].
+    pub fn verif_gate(&self, i: usize) -> (G::ScalarField, G::ScalarField, G::ScalarField) {
+        self.prover.verif_gate(i)
+    }
+}
